@@ -14,7 +14,7 @@ import (
 
 func init() {
 	sim.Register(&sim.Prop{
-		ID: "C17", Run: runC17, QuickRuns: 200000, ThoroughRuns: 5000000,
+		ID: "C17", Run: runC17, QuickRuns: 200000, ThoroughRuns: 12000000,
 		Rule:       "Each run: (A, decided) a record or value tree is delivered by a simulated Source that fails with one of five injected error values (io.EOF, io.ErrUnexpectedEOF, a comparable custom error, a pointer-typed error, a wrapped error) at a tape-chosen offset inside an item, with per-run fragmentation; the failing thrift.BufferReader call must return an error for which errors.Is(err, injected) holds; (B, by-product) the malformed-input generator of C08 feeds Binary.Skip, the Binary scalar/string/header readers and ReadMessageBegin, whose failures must be protocol exceptions with the type id the reference classifier allows for the first failing node.",
 		Components: realComponents,
 		Probes:     []string{"stream_error.io.EOF", "stream_error.io.ErrUnexpectedEOF", "stream_error.custom", "stream_error.pointer-typed", "stream_error.wrapped", "stream_error.wrapped-EOF", "stream_error.pointer-typed-wrapping-EOF", "stream_error.timeout", "cause.INVALID_DATA", "cause.NEGATIVE_SIZE", "cause.BAD_VERSION", "cause.DEPTH_LIMIT", "skip_failed_on_source_error"},
